@@ -56,6 +56,9 @@ std::vector<Sub> subs;
 phx::World W;
 volatile int subs_done = 0;
 bool pool_by_photon = false;
+bool with_joiner = false;         // an extra vCPU joins the pool through join_current_vcpu_into_workpool()
+int n_interrupts = 0;             // thread_interrupt()s sent to photon submitters (possibly while they are inside call())
+volatile int joiner_in = 0;
 
 void submit_all(Sub& s) {
     for (size_t i = 0; i < s.ids.size(); i++) {
@@ -81,6 +84,8 @@ void make_pool() {
     if (WP->get_vcpu_num() != pool_vcpus) HX_VIOL("pool", "get_vcpu_num()=%d, expected %d", WP->get_vcpu_num(), pool_vcpus);
 }
 void destroy_pool() {
+    // a vCPU that joins the pool must have joined before the pool is destroyed (the joiner's own responsibility in real use)
+    while (with_joiner && WP->get_vcpu_num() < pool_vcpus + 1) { if (photon::CURRENT) thread_usleep(100); else sim::sleep_ns(100000); }
     sim::note("destroying the pool");
     delete WP;
     sim::NoSched ns; pool_destroyed = true;
@@ -103,6 +108,8 @@ void harness_run(uint64_t seed) {
     int nphoton = sim::rnd(3), nos = sim::rnd(3);
     if (nphoton + nos == 0) nos = 1;
     pool_by_photon = nphoton > 0 && sim::rnd(2);
+    with_joiner = sim::rnd(3) == 0 && !hx::param("no_joiner", 0);
+    n_interrupts = nphoton && sim::rnd(3) == 0 ? 1 + sim::rnd(6) : 0;
     int ntasks = 0;
     static const uint64_t GAP[] = {0, 0, 0, 10, 100, 1000};
     for (int i = 0; i < nphoton + nos; i++) {
@@ -116,8 +123,8 @@ void harness_run(uint64_t seed) {
         subs.push_back(s);
     }
     char plan[300];
-    snprintf(plan, sizeof plan, "{\"pool_vcpus\":%d,\"mode\":%d,\"ring_size\":%zu,\"photon_submitters\":%d,\"os_submitters\":%d,\"tasks\":%d,\"pool_owner\":\"%s\"}",
-             pool_vcpus, pool_mode, ring_size, nphoton, nos, ntasks, pool_by_photon ? "photon thread" : "plain OS thread");
+    snprintf(plan, sizeof plan, "{\"pool_vcpus\":%d,\"mode\":%d,\"ring_size\":%zu,\"photon_submitters\":%d,\"os_submitters\":%d,\"tasks\":%d,\"pool_owner\":\"%s\",\"joined_vcpu\":%d,\"interrupts\":%d}",
+             pool_vcpus, pool_mode, ring_size, nphoton, nos, ntasks, pool_by_photon ? "photon thread" : "plain OS thread", (int)with_joiner, n_interrupts);
     sim::extra_json("plan", plan);
     char nb[32]; snprintf(nb, sizeof nb, "%d", ntasks); sim::extra_json("nops", nb);
     sim::set_poison_property("use-after-delete");
@@ -131,7 +138,28 @@ void harness_run(uint64_t seed) {
         W.vcpu_pre = [](int) { make_pool(); };
         W.vcpu_end = [](int) { while (subs_done < (int)subs.size()) thread_usleep(200); destroy_pool(); };
     }
+    if (nphoton && n_interrupts) {
+        W.add(0, [nphoton](int) {
+            for (int k = 0; k < n_interrupts; k++) {
+                thread_usleep(sim::rnd(3) ? sim::rnd(200) : sim::rnd(3000));
+                auto& r = W.threads[sim::rnd(nphoton)];
+                if (!r.started || r.done || !r.th) continue;
+                // an interrupt aimed at whatever the submitter is doing: it may cut a sleep short, it must not cut call() short
+                thread_interrupt(r.th, EINTR);
+                sim::fault_fired("interrupt_to_submitter");
+            }
+        });
+    }
     W.deadline_ns = deadline;
+    std::thread joiner;
+    if (with_joiner) joiner = std::thread([] {
+        while (!WP) sim::sleep_ns(50000);
+        if (photon::init(photon::INIT_EVENT_NONE, photon::INIT_IO_NONE) < 0) sim::finish("error", "harness", "photon::init of the joining vCPU failed");
+        { sim::NoSched ns; joiner_in = 1; }
+        WP->join_current_vcpu_into_workpool();         // serves tasks until the pool is destroyed
+        photon::fini();
+        sim::probe("vcpu_joined_the_pool");
+    });
     std::vector<std::thread> os;
     for (int i = nphoton; i < nphoton + nos; i++) os.emplace_back([i] { while (!WP) sim::sleep_ns(50000); submit_all(subs[i]); });
     volatile bool all_done = false;
@@ -141,6 +169,7 @@ void harness_run(uint64_t seed) {
         if (W.nvcpu) W.run();
         for (auto& t : os) t.join();
         if (!pool_by_photon) destroy_pool();
+        if (with_joiner) joiner.join();
         sim::NoSched ns; all_done = true;
     });
     for (;;) {
